@@ -197,6 +197,11 @@ def scenarios_for(tier, rng, starts, scripts):
             for back in (0, 1, 3):
                 for qos in (1, 2):
                     scr.append(dict(id="resup-%d-h%d-b%d-q%d" % (si, hold, back, qos), kind="resup", hi=s[0], lo=s[1], hold=hold, n=back, ackEvery=qos, per=4))
+    # the write of a request fails while the connection stays open, after a concurrent Publish drew the next identifier
+    for si, s in enumerate(rst):
+        for via in ("sub", "unsub"):
+            for qos in (1, 2):
+                scr.append(dict(id="wfail-%d-%s-q%d" % (si, via, qos), kind="wfail", hi=s[0], lo=s[1], via=via, ackEvery=qos, per=4))
     churn = [dict(id="churn", kind="churn", hi=rng.randrange(M16), lo=rng.randrange(1, M16 - 1))]
     return alloc, api, scr, churn
 
